@@ -325,7 +325,7 @@ pub fn run_case_as(c: &Case, kind: &str, ety: &str, mode: &str) -> Result<Obs, S
             LOCS.with(|l| *l.borrow_mut() = offs);
             run_kind::<&'static chumsky::text::Graphemes, Rich<&'static chumsky::text::Grapheme>>(&c.g, chumsky::text::Graphemes::new(s), &c.inp, mode)
         }
-        "stream" | "bstream" | "mapped" | "mstream" | "wctx" | "mapspan" | "io" | "bytes" => {
+        "stream" | "bstream" | "mapped" | "mstream" | "wctx" | "mapspan" | "io" | "bytes" | "iter" => {
             if ety != "rich" {
                 return Err(format!("error type {ety} not instantiated for kind {kind}"));
             }
@@ -341,6 +341,7 @@ pub fn run_case_as(c: &Case, kind: &str, ety: &str, mode: &str) -> Result<Obs, S
                 "stream" => run_kind::<_, Rich<char>>(&c.g, Stream::from_iter(Counting { it: toks.clone().into_iter(), idx: 0 }), &c.inp, mode),
                 "bstream" => run_kind::<_, Rich<char>>(&c.g, Stream::from_iter(Counting { it: toks.clone().into_iter(), idx: 0 }).boxed(), &c.inp, mode),
                 "mapped" => run_kind::<_, Rich<char>>(&c.g, (&spanned[..]).map(eoi, |(t, s): &(char, SSpan)| (t, s)), &c.inp, mode),
+                "iter" => run_kind::<_, Rich<char>>(&c.g, chumsky::input::IterInput::new(spanned.clone().into_iter(), eoi), &c.inp, mode),
                 "mstream" => run_kind::<_, Rich<char>>(&c.g, Stream::from_iter(spanned.clone().into_iter()).boxed().map(eoi, |(t, s): (char, SSpan)| (t, s)), &c.inp, mode),
                 "wctx" => run_kind::<_, Rich<char, CSpan>>(&c.g, (&c.inp[..]).with_context::<CSpan>(0), &c.inp, mode),
                 "mapspan" => run_kind::<_, Rich<char, CSpan>>(
